@@ -208,6 +208,21 @@ CHECKS['C38'] = _sm('The RNG register of the emulated nRF52 is a seeded byte str
                     'draws of create_passkey() per run must lie in 000000..999999 with all upper bytes zero; on uniform streams 20 equal buckets and 7 ranges that modulo reductions would favour must be within 7 sigma.',
                     'deterministic simulation: seeded RNG register streams, range check of every generated passkey and coarse uniformity statistics', 'Fine bias (below about 1 %) is not decidable by sampling and not claimed.')
 
+
+CHECKS['C31'] = {
+    'harnesses': [{'harness': 'l2cap_sim', 'binary': 'l2cap_sim'}],
+    'technique': 'deterministic simulation: seeded interleavings of central frames, signaling commands/responses, application requests, link layer polls and buffer shortage against a channel/signaling reference model, under ASan',
+    'design_ref': 'DESIGN.md 4.3, 6 (C31)',
+    'level_text': 'Seeded search over interleavings of three parties on bluetoe::details::l2cap<> with the real signaling channel and two recording channels: the central sends frames with right and wrong length fields, '
+                  'known and unknown channel ids, runt frames, signaling commands of every code and responses with matching, foreign and zero identifiers and wrong lengths; the application queues parameter update requests; the link '
+                  'layer polls, and for phases has no transmit buffer (input is deferred and retried). Oracles after every step: delivery to exactly the named channel and only with a matching length field, answers on the '
+                  'request\'s channel, inside the exactly sized heap buffer (ASan) with a consistent length field, silence for unknown channels; the update request is sent once with the queued values, only the matching response '
+                  'completes it (asked on a copy of the channel), identifiers are non zero and advance, every other command with a non zero identifier gets a Command Reject echoing it. Sampling, not proof.',
+    'level_note': 'trusted: the model in harness/l2cap_sim.cpp; the link layer and the ATT/SM channels are stubs (the real ones take part in stack_sim, where C31 is not judged); a response that matches nothing may be rejected or dropped',
+    'assumptions': ['allocate_l2cap_output_buffer() hands out the requested payload size plus 4 bytes of header, as ll_l2cap_sdu_buffer does', 'one connection'],
+    'explanation': 'A sanitizer abort counts as a violation for this property (replies must fit the allocated buffer).',
+}
+
 # properties that are deliberately not decided by simulation (see DESIGN.md section 7)
 NOT_APPLICABLE = {
     'C04': 'compile-time mapping of the declaration to handles: no schedule, clock, fault or history can influence it (DESIGN.md 7); mapping errors still surface under C02/C03, whose model has an independent handle table',
